@@ -213,7 +213,8 @@ class IntermediateCodeGen(AbstractCodeGen):
             baseSymType, baseSymSubtype = self.getBaseType(*symType)
             if isinstance(baseSymSubtype, list):
                 if isinstance(symSubtype, list):
-                    symSubtype += baseSymSubtype
+                    # a new list: the symbol table (and the tree) must stay intact
+                    symSubtype = symSubtype + baseSymSubtype
                 else:
                     symSubtype = baseSymSubtype
 
